@@ -63,3 +63,6 @@ SPEC = {'id': 'C16',
                  'a single poll loop (SnowflakeProxy.Start) per process']}
 
 SPEC['thorough_passes'] = 3  # the thorough tier runs the whole harness under this many consecutive seeds
+
+SPEC['rule'] += (' ' +
+    "Added after rounds four and five: clients open their data channel unordered / partially reliable / with a sub-protocol; a relay that stops reading and never closes; a broker that accepts a poll and never answers after a NAT type measurement (child process: the poll ends at the 30 s response-header timeout); three overlapping sessions on the proxy's own relay URL.")
